@@ -301,6 +301,7 @@ def run(eng, run):
     run.tables["external_callees_assumed_to_raise_nothing_input_dependent"] = sorted(summ.assumed_silent)
     run.tables["calls_without_resolved_target"] = sorted({n for v in summ.unresolved.values() for n in v})
     run.counters["calls_without_resolved_target"] = len(run.tables["calls_without_resolved_target"])
+    run.attempt(c02.check_parse_error_carries_remainder, eng, RuleAlias(run, "C06.rem"))  # the protocol layer hands the serializer's remainder on, also for an oversized frame
     run.end_of_rules()
 
 
